@@ -127,7 +127,7 @@ func runPair(c *ctx, id string, cfg runCfg, oldS, newS []Stmt, style sqlStyle) {
 func routeNames(dialect string) []string {
 	routes := []string{"canonical", "grouped", "per-statement", "random-spelling", "own-dump"}
 	if dialect == "mysql" {
-		routes = append(routes, "explicit-using-btree", "inline-keys", "table-level-pk")
+		routes = append(routes, "explicit-using-btree", "inline-keys", "table-level-pk", "inline-keys-using-btree")
 	}
 	return routes
 }
@@ -185,6 +185,13 @@ func runRoutesFixed(c *ctx, id string, cfg runCfg, s *gSchema, fix1, fix2 string
 		case "table-level-pk":
 			ss, _ := tableLevelPk(s.scriptGrouped())
 			e = load(z, cfg, plain, ss)
+		case "inline-keys-using-btree": // the way mysqldump prints the default index type (seeded change C03-g)
+			e = guard(func() string {
+				if err := z.FromString(plain.scriptInlineKeysUsing(s.scriptGrouped(), " USING BTREE")); err != nil {
+					return "error:" + firstLine(err.Error())
+				}
+				return "ok"
+			})
 		case "inline-keys":
 			e = guard(func() string {
 				if err := z.FromString(plain.scriptInlineKeys(s.scriptGrouped())); err != nil {
